@@ -4,6 +4,7 @@ ONEQ = {"T", "HAD"}
 TWOQ = {"CNOT", "CZ"}
 PHS = {}
 STRAT = "flow"
+TEMPLATE <- NoTemplate
 GAUSS = "none"
 INIT Init
 NEXT Next
